@@ -704,6 +704,25 @@ class ShimNP:
                 raise ValueError("can't extend empty axis using modes other than 'constant' or 'empty'")
         return LazyArr(shape, g, a.kind, a.dtype)
 
+    def rint(self, a, *x, **kw):
+        if type(a).__name__ == 'SymFloat':
+            return a.rint()
+        if isinstance(a, LazyArr):
+            f = a.frozen()
+            return LazyArr(a.shape, lambda idx: (lambda v: v.rint() if type(v).__name__ == 'SymFloat' else v)(f.get(idx)), a.kind, a.dtype)
+        if is_sym(a):
+            return a
+        return real_np.rint(a, *x, **kw)
+
+    def round(self, a, decimals=0, **kw):
+        if decimals == 0 and (type(a).__name__ == 'SymFloat' or isinstance(a, LazyArr) or is_sym(a)):
+            return self.rint(a)
+        if type(a).__name__ == 'SymFloat' or isinstance(a, LazyArr):
+            raise Unsupported("np.round(decimals != 0) of a lazy value")
+        return real_np.round(a, decimals, **kw)
+
+    around = round
+
     def asarray(self, a, dtype=None, **kw):
         if isinstance(a, LazyArr):
             return a if dtype is None else a.astype(dtype)
@@ -868,8 +887,9 @@ ALWAYS_LAZY = [False]
 
 def _arange_fp(start, stop, step):
     """numpy.arange for binary64 arguments: length = ceil((stop - start) / step) evaluated in double precision (clipped
-    at 0); element k = first + k * (next - first) with next = start + step, as numpy's fill loop computes it."""
-    from symx.symfloat import SymFloat, to_fp
+    at 0); element 0 = start, element 1 = start + step, element k >= 2 = start + k * delta with
+    delta = (start + step) - start, as numpy's DOUBLE_fill computes it."""
+    from symx.symfloat import SymFloat, to_fp, fp_ite
     import z3 as _z3
     rne = _z3.RNE()
     a, b, c = to_fp(start), to_fp(stop), to_fp(step)
@@ -877,10 +897,16 @@ def _arange_fp(start, stop, step):
     n = q.ceil_int()
     if n < 0:
         n = 0
-    n = fx(n)
     first = SymFloat(a)
-    delta = SymFloat(_z3.fpSub(rne, _z3.fpAdd(rne, a, c), a))
-    return LazyArr((n,), lambda idx: first + delta * idx[0], 'num', 'f8')
+    nxt = SymFloat(_z3.fpAdd(rne, a, c))
+    delta = nxt - first
+
+    def elem(idx):
+        k = idx[0]
+        if not is_sym(k):
+            return first if k == 0 else nxt if k == 1 else first + delta * k
+        return fp_ite(k == 0, first, fp_ite(k == 1, nxt, first + delta * k))
+    return LazyArr((n,), elem, 'num', 'f8')
 
 
 def _array_equal_default(a, b):
